@@ -13,6 +13,37 @@ CLAIMED = {
             "trusted: Coq kernel, vm_compute; np.searchsorted/np.sort contracts modelled as count/sorted permutation; "
             "translator whitelist; harness printers. NaN scores excluded.",
             "Coq proof (induction over lists) + ast-regenerated tie lemma + vm_compute correspondence"),
+    "C11": ("7/C11",
+            "Coq theorems over all Scores, easy counts, configurations and ALL RNG draw histories within NumPy's contract "
+            "(flags kept; class membership with smoothing off; sample sorted incl. the single-pass is_sorted=True path; "
+            "replacement: total preserved incl. corrections, by_label strata exact, at least one hard sample per non-empty "
+            "class; single-pass by_label easy strata exact; proportion: sizes, sub-multiset without repeated index; "
+            "reachability of every source score). The non-emptiness clause is REFUTED for explicit single_pass "
+            "(C11_single_pass_nonempty_refuted, witness replayed on the implementation = open known finding). "
+            "Unbiasedness is PARTIAL: proved for the parameters handed to NumPy (n*p = drawn/source, = 1 under by_label; "
+            "binomial means), not over NumPy's generator. Model tied to the source by replaying recorded RNG histories "
+            "(sample AND call order/parameters compared) on generated cases.",
+            "trusted: Coq kernel, vm_compute; NumPy RNG contract (draw_ok) and documented means (draw_mean); np.sort/np.repeat/"
+            "fancy indexing modelled by isort/repeat_idx/take_idx; RNG recorder (monkeypatch in the driver process). No tie lemma "
+            "(translator not attempted for _sample_indices): the tie is correspondence only. Smoothing: noise values/bandwidth "
+            "not modelled (sizes, flags, order only). Strata 'exact' is read for replacement sampling; single pass fixes hard "
+            "strata only in expectation. Oracle adds an 8-sigma expected-size test for single-pass by_label (statistical, "
+            "false-alarm probability < 1e-14 per case).",
+            "Coq proof (induction over lists / histories) + vm_compute correspondence on recorded draw histories + property oracle"),
+    "C12": ("7/C12",
+            "Coq theorems over all labelled score sets, all 4 configurations, every threshold, ANY argsort that returns a sorting "
+            "permutation, and all draw histories within NumPy's contract: constructor / swap / every sampling mode keep each score "
+            "with its label (pair multisets; image of the drawn indices for None/by_label), indexing = exactly the labelled scores, "
+            "group_cm = counting over the labelled pairs, sum over groups = overall matrix (labels in a duplicate-free group list), "
+            "by_group replacement preserves each group's count, group list/order and flags preserved in samples, groupwise = "
+            "metric group by group. Model tied to the source by correspondence on generated cases (identifiable pairings, "
+            "recorded RNG histories).",
+            "trusted: Coq kernel, vm_compute; np.argsort contract (argsort_ok; executable instance iargsort proved to satisfy it); "
+            "boolean-mask indexing = order-preserving filter; np.concatenate = concat; NumPy RNG contract (draw_ok); group names "
+            "mapped to integers order-preservingly by the harness; RNG recorder. No tie lemma: correspondence only. The "
+            "_grouped_scores cache is not modelled. by_group count preservation is for replacement sampling (single pass: in "
+            "expectation only). Sampling clauses assume every sampled stratum non-empty (property quantifier).",
+            "Coq proof (induction over lists / histories, Permutation reasoning) + vm_compute correspondence + property oracle"),
 }
 PENDING = {}
 
